@@ -6,11 +6,15 @@ import vrepo
 from epydemic import DrawSet
 import epydemic.bbt as bbt
 
+class TooWide(Exception):
+    pass
+
 class Enum:
     """enumerate every outcome of rng.integers under draw(): exact law"""
     def __init__(self): self.path=[]; self.pos=0; self.ranges=[]
     def integers(self, low, high=None):
         if high is None: low, high = 0, low
+        if high > 4096: raise TooWide()          # (a draw from a range this size cannot be enumerated outcome by outcome)
         if self.pos < len(self.path): x=self.path[self.pos]
         else: self.path.append(0); x=0
         if self.pos >= len(self.ranges): self.ranges.append(high)
@@ -69,8 +73,23 @@ def check(ops, dense=True):
                 if (x in ds)!=(x in ref): return f"op {k}: membership of {x}"
             walk(ds._root)
             if ref:
-                law=draw_law(ds)
-                if set(law)!=ref or any(p!=Fraction(1,len(ref)) for p in law.values()): return f"op {k}: draw law {law}"
+                try:
+                    law=draw_law(ds)
+                except TooWide:
+                    law=None                  # not enumerable: a seeded sample instead, judged far out in the tail (no false alarm in practice)
+                    if len(ref) >= 2 and (last or k % 7 == 0):
+                        import numpy, math
+                        bbt.rng = numpy.random.default_rng(20260101)
+                        n_ = len(ref); N_ = 400 * n_; cnt_ = {}
+                        for _ in range(N_):
+                            x_ = ds.draw(); cnt_[x_] = cnt_.get(x_, 0) + 1
+                        chi2 = sum((cnt_.get(x_, 0) - N_ / n_) ** 2 / (N_ / n_) for x_ in ref)
+                        df_ = n_ - 1
+                        if set(cnt_) - ref: return f"op {k}: draw returned {sorted(set(cnt_) - ref)[:3]}, not members"
+                        if chi2 > df_ + 12 * math.sqrt(2 * df_) + 60:
+                            return (f"op {k}: {N_} draws (numpy default_rng(20260101)) from a set of {n_}: counts {sorted(cnt_.get(x_, 0) for x_ in ref)} around {N_ // n_}, "
+                                    f"chi-squared {chi2:.1f} on {df_} degrees of freedom: not uniform")
+                if law is not None and (set(law)!=ref or any(p!=Fraction(1,len(ref)) for p in law.values())): return f"op {k}: draw law {law}"
             else:
                 try: ds.draw(); return f"op {k}: draw on empty did not raise"
                 except ValueError: pass
